@@ -406,12 +406,13 @@ func main() {
 	if tier == "thorough" {
 		mult = 12
 	}
-	// 1. debouncer stop races (the defect repaired by the fix commit must not come back)
-	rounds := 3000 * mult
-	h := gocql.VerifRefreshDebouncerRace(rounds, 300*time.Millisecond)
-	out.Case(fmt.Sprintf("debrace refresh rounds=%d hung=%d", rounds, h), "accept", "debrace/refresh", true)
-	h = gocql.VerifEventDebouncerRace(rounds, 300*time.Millisecond)
-	out.Case(fmt.Sprintf("debrace event rounds=%d hung=%d", rounds, h), "accept", "debrace/event", true)
+	t0 := time.Now()
+	lap := func(what string) {
+		if os.Getenv("VERIF_C17_TIMING") != "" {
+			fmt.Fprintf(os.Stderr, "c17 phase %s: %.1fs\n", what, time.Since(t0).Seconds())
+		}
+		t0 = time.Now()
+	}
 	// 2. pools (scenarios run in parallel, output in generation order)
 	np := 24 * mult
 	scen := make([]poolScenario, np)
@@ -467,6 +468,7 @@ func main() {
 		}
 		out.Case(res[i][0], "accept", res[i][1], true)
 	}
+	lap("pools")
 	// 3. Session.Close: concurrent closers, queries in flight
 	for i := 0; i < 40*mult; i++ {
 		op := runClose(1+r.Intn(4), r.Intn(8), r)
@@ -482,6 +484,7 @@ func main() {
 		os.Exit(3)
 	}
 	out.Case(op, "accept", "sessclose/race", true)
+	lap("sessclose")
 	// 4. the connect pipeline: conducted schedules (model-predicted) and scripted-fate scenarios (monitors)
 	nA, nB := 200*mult, 48*mult
 	type pres struct{ op, impl, obs string }
@@ -530,6 +533,16 @@ func main() {
 			out.Case(pr[i].obs, "accept", "pipeobs/B", true)
 		}
 	}
+	lap("pipeline")
+	// 1. debouncer stop races (the defect repaired by the fix commit must not come back). Run LAST: each round
+	// leaves a goroutine parked on a listener nobody serves any more (refreshNow after stop), and thousands of
+	// parked goroutines make every goroutine profile of the pipeline monitors slow.
+	rounds := 3000 * mult
+	h := gocql.VerifRefreshDebouncerRace(rounds, 300*time.Millisecond)
+	out.Case(fmt.Sprintf("debrace refresh rounds=%d hung=%d", rounds, h), "accept", "debrace/refresh", true)
+	h = gocql.VerifEventDebouncerRace(rounds, 300*time.Millisecond)
+	out.Case(fmt.Sprintf("debrace event rounds=%d hung=%d", rounds, h), "accept", "debrace/event", true)
+	lap("debrace")
 	// 5. model-only sanity lines (documented examples of the machine)
 	out.Case("model 2 fillStart dialOk dialFail fillStop fillStart connError dialOk fillStop fillStart close dialOk", "conns=0 pending=0 filling=true closed=true opened=0", "model", true)
 	out.Case("hsmodel code ctxFire cLeave cRet wRet wEsc rErr rEsc", "r=done w=done c=ret cancelled=1 buf=0", "model", true)
